@@ -338,6 +338,36 @@ func c07Extras() []*progCase {
 		&progCase{P: &Program{Funcs: []*Func{cfor}, Rules: []*Rule{{Kind: "BEGIN", Body: Blk(Ex(CallE(V("cfor"), N("2"))))}}}},
 		&progCase{P: &Program{Funcs: []*Func{chars}, Rules: []*Rule{{Kind: "BEGIN", Body: Blk(Ex(CallE(V("chars"), S("abé"))))}}}},
 	)
+	// loop variables are ordinary names, looked up each time the loop starts: the same for-in writes a global at one call
+	// and a caller's parameter of that name at the next
+	items := &Func{Name: "items", Params: []string{"arr"}, Body: Blk(&ForIn{V: "k", W: "v", Iter: V("arr"), Body: Blk(Pr(S("item"), V("k"), V("v")))}, &Return{X: V("k")})}
+	tagged := &Func{Name: "tagged", Params: []string{"k", "arr"}, Body: Blk(Pr(S("tagged sees"), V("k")), Ex(Asg("=", V("r"), CallE(V("items"), V("arr")))), Pr(S("tagged's k now"), V("k"), V("r")))}
+	tagv := &Func{Name: "tagv", Params: []string{"v"}, Body: Blk(Ex(CallE(V("items"), Arr_(S("x"), S("y")))), Pr(S("tagv's v now"), V("v")))}
+	counted := &Func{Name: "counted", Params: []string{"n"}, Body: Blk(&For{Init: Asg("=", V("i"), N("0")), Cond: Bin("<", V("i"), V("n")), Post: &Postfix{"++", V("i")}, Body: Blk(Pr(S("i"), V("i")))}, &Return{X: V("i")})}
+	hasI := &Func{Name: "hasI", Params: []string{"i"}, Body: Blk(Pr(S("counted returns"), CallE(V("counted"), N("2"))), Pr(S("hasI's i now"), V("i")))}
+	out = append(out,
+		&progCase{P: &Program{Funcs: []*Func{items, tagged, tagv}, Rules: []*Rule{{Kind: "BEGIN", Body: Blk(
+			Ex(Asg("=", V("k"), S("gk"))), Ex(Asg("=", V("v"), S("gv"))), // the names exist as globals before any loop runs
+			Ex(CallE(V("items"), Arr_(N("1"), N("2")))), Pr(S("global k v"), V("k"), V("v")),
+			Ex(CallE(V("tagged"), S("T"), Arr_(N("30"), N("40"), N("50")))), Pr(S("global k v"), V("k"), V("v")),
+			Ex(CallE(V("tagv"), S("V"))), Pr(S("global k v"), V("k"), V("v")),
+			Ex(CallE(V("items"), &ObjLit{Keys: []string{"p"}, Vals: []Expr{N("9")}})), Pr(S("global k v"), V("k"), V("v")))}}}},
+		&progCase{P: &Program{Funcs: []*Func{items, tagged}, Rules: []*Rule{{Body: Blk(
+			&ForIn{V: "k", W: "v", Iter: Arr_(V("$")), Body: Blk(Pr(S("rule loop"), V("k"), V("v")))},
+			Ex(CallE(V("items"), Arr_(S("direct")))),
+			Ex(CallE(V("tagged"), V("$"), Arr_(V("$"), V("$")))), Pr(S("rule k v"), V("k"), V("v")))}}}, Files: []inFile{{"in.json", `[7,8]`}}},
+		&progCase{P: &Program{Funcs: []*Func{counted, hasI}, Rules: []*Rule{{Kind: "BEGIN", Body: Blk(
+			Ex(Asg("=", V("i"), S("gi"))), Pr(CallE(V("counted"), N("2")), V("i")), Ex(CallE(V("hasI"), S("mine"))), Pr(S("global i"), V("i")), Pr(CallE(V("counted"), N("1")), V("i")))}}}},
+	)
+	// loops that run long: nothing changes at the 1 000th, 10 000th or 65 536th iteration
+	for _, n := range []string{"1001", "10003", "65537"} {
+		out = append(out,
+			&progCase{P: &Program{Rules: []*Rule{{Kind: "BEGIN", Body: Blk(&For{Init: Asg("=", V("i"), N("0")), Cond: Bin("<", V("i"), N(n)), Post: &Postfix{"++", V("i")}, Body: Blk(Ex(Asg("+=", V("t"), N("2"))))}, Pr(S("for"), V("i"), V("t")))}}}, MaxSteps: 3_000_000},
+			&progCase{P: &Program{Rules: []*Rule{{Kind: "BEGIN", Body: Blk(&While{Cond: Bin("<", V("w"), N(n)), Body: Blk(Ex(&Postfix{"++", V("w")}), &If{Cond: Bin("==", Bin("%", V("w"), N("5000")), N("0")), Then: Pr(S("at"), V("w"))})}, Pr(S("while"), V("w")))}}}, MaxSteps: 3_000_000},
+			&progCase{P: &Program{Rules: []*Rule{{Kind: "BEGIN", Body: Blk(Ex(Asg("=", V("a"), Arr_())), &While{Cond: Bin("<", CallE(Mem(V("a"), "length")), N(n)), Body: Blk(Ex(CallE(Mem(V("a"), "push"), CallE(Mem(V("a"), "length")))))},
+				&ForIn{V: "v", W: "j", Iter: V("a"), Body: Blk(Ex(Asg("+=", V("s"), Bin("-", V("v"), V("j")))), Ex(&Postfix{"++", V("c")}))}, Pr(S("for-in"), V("c"), V("s"), V("v"), V("j")))}}}, MaxSteps: 3_000_000},
+		)
+	}
 	// the same over the input document
 	out = append(out, &progCase{P: &Program{Rules: []*Rule{{Kind: "BEGINFILE", Body: Blk(&ForIn{V: "v", W: "i", Iter: V("$"), Body: Blk(Pr(V("i"), V("v")), &If{Cond: lt3(), Then: Ex(Asg("=", Idx(V("$"), Bin("+", V("i"), N("1"))), Bin("*", V("v"), N("10"))))})})}, {Body: Blk(Pr(V("$")))}}},
 		Files: []inFile{{"in.json", `[1,2,3,4]`}}, Root: true})
@@ -355,7 +385,7 @@ func init() {
 		ID: "C07",
 		Rule: "all statement trees with <= N nodes over 25 constructs (trace print, if / if-else with true, false and data-driven conditions, while with a counting and a false condition, three-clause for, for-in over array / object / string with one and two variables and over the three empty iterables, two-statement block, break, continue, return, next, exit), " +
 			"each placed in a BEGIN rule, in the first of two pattern rules over [1,2], in a function called (inside a print list) from such a rule, and in the first of two pattern rules over a stream of an object, a number and a string; trees that use break/continue outside a loop or return outside a function are left out (they are syntax errors, C11); oracle: the model's exact output trace (DESIGN.md 3.11-3.13); " +
-			"a state is a (enclosing construct > construct) pair that was executed; non-trivial = such pairs; plus fixed programs for 12-key objects, unbraced dangling else, 6 loops re-entered through recursion while an outer execution of the same statement is running (tree walks over objects / arrays / strings, while and for with shared counters), and 14 for-in loops whose body replaces an element not yet visited (directly, through an alias, in a callee, in the input document) with break / continue driven by the value that arrives",
+			"a state is a (enclosing construct > construct) pair that was executed; non-trivial = such pairs; plus fixed programs for 12-key objects, unbraced dangling else, 3 programs in which one loop statement writes a global at one call and a caller's parameter of that name at the next (names are looked up dynamically), 9 loops of 1 001 / 10 003 / 65 537 iterations (for, while, for-in), 6 loops re-entered through recursion while an outer execution of the same statement is running (tree walks over objects / arrays / strings, while and for with shared counters), and 14 for-in loops whose body replaces an element not yet visited (directly, through an alias, in a callee, in the input document) with break / continue driven by the value that arrives",
 		Plan:        func(t fw.Tier) int { return c7NKinds * 4 },
 		Bound:       func(t fw.Tier) string { return fmt.Sprintf("all valid trees with <= %d nodes x 4 placements", size(t)) },
 		Assumptions: []string{"reference interpreter mc/refsem (statements, calls, rule schedule)", "object key order probed from the implementation once per key sequence (3.11)"},
